@@ -24,7 +24,7 @@ MANIFEST = {
     'note': 'EST_IDX_NA = 0 doubles as "no link" and as the index of the first fake node; aggregate pushes of the start nodes are therefore not paired.',
 }
 EXPLANATION = 'Reciprocal link-store pairing and seed / duration / propagation terms of the estimated-time network construction.'
-RULES = ['C15-1.reciprocal', 'C15-2.seed', 'C15-3.duration', 'C15-4.propagation', 'C15-5.origins', 'C15-6.events', 'C15-7.options', 'C15-8.swap']
+RULES = ['C15-1.reciprocal', 'C15-2.seed', 'C15-3.duration', 'C15-4.propagation', 'C15-5.origins', 'C15-6.events', 'C15-7.options', 'C15-8.swap', 'C15-9.helpers']
 ASSUMPTIONS = []
 
 
@@ -100,6 +100,7 @@ def run(ctx):
     seeds(ctx)
     duration(ctx)
     propagation(ctx)
+    helpers(ctx)
 
 
 def reciprocal(ctx):
@@ -454,3 +455,108 @@ def swaps(ctx):
         ctx.check(ok, R, 'update_times_backward|' + fld, 'the two re-linked nodes exchange their %s (each gets the other\'s previous value)' % fld,
                   'node %s receives the previous value of node %s, node %s that of node %s' % (_s(an, strip(A)), _s(an, r1) if r1 is not None else show(n1, an.names)[:80],
                                                                                               _s(an, strip(B)), _s(an, r2) if r2 is not None else show(n2, an.names)[:80]), ctx.where(b, s1))
+
+
+def helpers(ctx):
+    """C15-9.helpers: small routines the construction and the two time passes rely on.
+    * the forward pass is a shortest-path search: its heap entry orders by time REVERSED (earliest first), ties by node index;
+      the backward pass pops the latest first: natural order on (time_prev, time_sub, node);
+    * the movement record of one free run starts with the state before the first step and gets exactly one entry per step, each a
+      field-by-field copy (time, offset, speed) of the train state;
+    * a route is closed (`finish`) exactly when its last link is one of the destinations (plain loop over all of them)."""
+    R = 'C15-9.helpers'
+    prog = ctx.prog
+    eng = engine(ctx)
+    from .common import plain_iteration
+    nrm = lambda c: re.sub(r'::<.*?>', '', c.callee)
+    # --- heap orders
+    b = prog.by_id.get('<EstTimeNext as Ord>::cmp')
+    if b is None:
+        ctx.unproved(R, 'EstTimeNext::cmp', 'anchor not found')
+    else:
+        an = analysis_or_fail(ctx, R, b)
+        if an is not None:
+            pcs = [c for c in an.calls if nrm(c).endswith('partial_cmp')]
+            A1, A2 = (('obj', 1),), (('obj', 2),)
+            ok = len(pcs) == 1 and not pcs[0].pc and pcs[0].argvals[0] == ('ref', A2 + (('f', 'time_next'),), 'shr') and pcs[0].argvals[1] == ('ref', A1 + (('f', 'time_next'),), 'shr')
+            r = an.ret()
+            ok = ok and r[0] == 'uf' and r[1].endswith('then_with') and r[2][0] == 'uf' and r[2][1] == 'unwrap'
+            ctx.check(ok, R, 'EstTimeNext::cmp|time reversed', 'entries order by time_next reversed (other vs self): the heap yields the earliest time first',
+                      'cmp returns %s' % show(r, an.names)[:200], ctx.where(b))
+            cl = prog.closures_of(b.fid)
+            okc = False
+            txt = None
+            if len(cl) == 1:
+                ca = eng.analysis(cl[0])
+                if ca.exit_state is not None:
+                    rr = ca.ret(); txt = show(rr, ca.names)
+                    okc = rr[0] == 'uf' and rr[1].endswith('cmp') and len(rr) == 4 and 'est_idx' in repr(rr[2]) and 'est_idx' in repr(rr[3]) \
+                        and "('f', '#0')" in repr(rr[2]) and "('f', '#1')" in repr(rr[3])
+                    # capture #0 must be `other`, #1 `self`: read the closure construction in cmp
+            ctx.check(okc, R, 'EstTimeNext::cmp|tie', 'ties are broken by node index, with the same orientation', 'tie-break is %s' % txt, ctx.where(b))
+    b = prog.by_id.get('<EstTimePrev as Ord>::cmp')
+    if b is None:
+        ctx.unproved(R, 'EstTimePrev::cmp', 'anchor not found')
+    else:
+        an = analysis_or_fail(ctx, R, b)
+        if an is not None:
+            r = an.ret()
+            s_ = show(r, an.names)
+            first = re.match(r'Γ\(discr\(::partial_cmp\(self\.time_prev, other\.time_prev\)\)\)', s_)
+            order = [m.start() for m in (re.search(r'partial_cmp\(self\.time_prev, other\.time_prev\)', s_), re.search(r'partial_cmp\(self\.time_sub, other\.time_sub\)', s_),
+                                         re.search(r'partial_cmp\(self\.est_idx, other\.est_idx\)', s_)) if m]
+            ok = bool(first) and len(order) == 3 and order == sorted(order) and 'partial_cmp(other.' not in s_
+            ctx.check(ok, R, 'EstTimePrev::cmp|natural order', 'entries order by (time_prev, time_sub, node), self vs other: the heap yields the latest time first',
+                      'cmp returns %s' % s_[:300], ctx.where(b))
+    # --- movement record
+    b = prog.by_id.get('SimpleState::from_train_state')
+    if b is None:
+        ctx.unproved(R, 'SimpleState::from_train_state', 'anchor not found')
+    else:
+        an = analysis_or_fail(ctx, R, b)
+        if an is not None:
+            r = an.ret()
+            f = dict(r[2]) if r[0] == 'agg' else {}
+            ok = bool(f) and all(f.get(k) == ('pre', (('obj', 1), ('f', k))) for k in ('time', 'offset', 'speed')) and set(f) == {'time', 'offset', 'speed'}
+            ctx.check(ok, R, 'SimpleState::from_train_state', 'time, offset and speed are copied from the same-named fields of the train state',
+                      'returns %s' % show(r, an.names)[:200], ctx.where(b))
+    b = prog.by_id.get('SavedSim::update_movement')
+    if b is None:
+        ctx.unproved(R, 'SavedSim::update_movement', 'anchor not found')
+    else:
+        an = analysis_or_fail(ctx, R, b)
+        if an is not None:
+            MV = ('ref', (('obj', 2),), 'mut')
+            clears = [c for c in an.calls if nrm(c).endswith('::clear') and c.argvals and c.argvals[0] == MV]
+            pushes = [c for c in an.calls if nrm(c).endswith('::push') and c.argvals and c.argvals[0] == MV]
+            steps = [c for c in an.calls if nrm(c).endswith('SpeedLimitTrainSim::step')]
+            cfg = inventory(ctx).cfg(b)
+            p0 = [c for c in pushes if not c.in_loop]
+            p1 = [c for c in pushes if c.in_loop]
+            def is_state_copy(v):
+                f = dict(v[2]) if v[0] == 'agg' else {}
+                return bool(f) and all(k in f for k in ('time', 'offset', 'speed')) and all('train_sim' in repr(f[k]) and "('f', 'state')" in repr(f[k]) and "('f', '%s')" % k in repr(f[k]) for k in ('time', 'offset', 'speed'))
+            ok1 = len(clears) == 1 and not clears[0].pc and len(p0) == 1 and not p0[0].pc and cfg.dominates(clears[0].block, p0[0].block) and is_state_copy(p0[0].argvals[1])
+            ctx.check(ok1, R, 'SavedSim::update_movement|initial entry', 'the record is cleared and starts with the state before the first step',
+                      'clears: %d, pushes before the loop: %s' % (len(clears), [show(c.argvals[1], an.names)[:100] for c in p0]), ctx.where(b))
+            ok2 = len(steps) == 1 and steps[0].in_loop and len(p1) == 1 and p1[0].pc == steps[0].pc and cfg.dominates(steps[0].block, p1[0].block) and is_state_copy(p1[0].argvals[1])
+            ctx.check(ok2, R, 'SavedSim::update_movement|one entry per step', 'inside the loop each step is followed by exactly one entry: the state after that step',
+                      'steps in loop: %d, pushes in loop: %d' % (len(steps), len(p1)), ctx.where(b))
+    # --- destinations
+    b = prog.by_id.get('SavedSim::check_dests')
+    if b is None:
+        ctx.unproved(R, 'SavedSim::check_dests', 'anchor not found')
+    else:
+        eng.all_paths.add(b.fid)
+        an = analysis_or_fail(ctx, R, b)
+        if an is not None:
+            fin = [c for c in an.calls if nrm(c).endswith('SpeedLimitTrainSim::finish')]
+            ok = len(fin) == 1 and len(fin[0].pc) == 2 and plain_iteration(fin[0].pc[0][0]) and fin[0].pc[0][1] == '1' and fin[0].pc[1][1] != '0'
+            cond = fin[0].pc[1][0] if ok else None
+            s_ = show(cond, an.names) if cond is not None else ''
+            def is_dest_link(t):
+                return t[0] == 'pre' and t[1][0] == ('obj', 2) and t[1][-1] == ('f', 'link_idx') and any(c[0] == 'idx' for c in t[1])
+            ok = ok and cond[0] == 'eq' and ((is_dest_link(cond[1]) and 'link_points' in repr(cond[2]) and 'link_idx' in repr(cond[2]))
+                                             or (is_dest_link(cond[2]) and 'link_points' in repr(cond[1]) and 'link_idx' in repr(cond[1])))
+            ctx.check(ok, R, 'SavedSim::check_dests', 'the route is closed exactly when its last link equals the link of one of the destinations (all are tried)',
+                      'finish is called under %s' % ([(show(c, an.names)[:120], o) for c, o in fin[0].pc] if fin else 'no call'), ctx.where(b))
